@@ -1,9 +1,7 @@
 ------------------------------- MODULE CodecGen -------------------------------
-(* TLC prints every case of CodecCases; "tx" cases come with the text the specification's encoder gives them. *)
-EXTENDS CodecCases, Json
-VARIABLE x
-Init == x \in Cases
-Next == UNCHANGED x
+(* TLC prints every case of CodecCases ("tx" cases with the text the specification's encoder gives them) and checks
+   the laws of CodecMC on it in the same pass. *)
+EXTENDS CodecMC, Json
 Emit == PrintT(ToJson([k |-> x.k, f |-> x.f, v |-> x.v, fam |-> x.fam, st |-> x.st, s |-> x.s,
                        text |-> IF x.k = "tx" THEN StyledText(x.f, x.v, x.st, x.s) ELSE <<>>]))
 =============================================================================
